@@ -1038,7 +1038,9 @@ def shard_main(payload):
             if viol.prop == prop:
                 agg["violations"].append(
                     {"class": viol.cls, "detail": viol.detail,
-                     "recipe": recipe})
+                     "recipe": recipe,
+                     "origin": {"seed": seed, "shard": shard, "lo": lo,
+                                "idx": idx, "tier": tier}})
             else:
                 key = "%s:%s" % (viol.prop, viol.cls)
                 agg["other_property"][key] = \
@@ -1052,9 +1054,38 @@ def shard_main(payload):
     return agg
 
 
+def replay_prefix(prop, origin):
+    """
+    Re-execute, in this process, every session of the shard from its first
+    index up to the failing one.  Needed when a violation depends on state a
+    change under test keeps in the PROCESS (class-level caches, mutable
+    default arguments): one session alone then does not reproduce it, the
+    same sequence of sessions always does.
+    """
+    viol = None
+    for idx in range(origin["lo"], origin["idx"] + 1):
+        _recipe, _sess, viol = run_session(
+            origin["seed"], prop, origin["shard"], idx, origin["tier"])
+    return viol
+
+
 def write_violation(prop, viol):
     recipe = minimise(viol["recipe"], prop, viol["class"])
     again = replay_session(recipe)
+    if not same(again, prop, viol["class"]) and viol.get("origin"):
+        payload = {
+            "property": prop, "engine": "edit-session",
+            "mode": "shard-prefix", "violation_class": viol["class"],
+            "origin": viol["origin"],
+            "note": "the failing session does not reproduce on its own: the "
+                    "violation depends on state kept in the process by "
+                    "earlier sessions; the replay re-runs the shard's "
+                    "sessions lo..idx in one process",
+            "document": viol["recipe"]["document"],
+            "history": viol["recipe"]["history"],
+            "detail": viol["detail"], "repo": driver.repo_state(),
+        }
+        return driver.write_replay(prop, payload), payload
     payload = {
         "property": prop, "engine": "edit-session",
         "violation_class": viol["class"],
@@ -1069,7 +1100,10 @@ def write_violation(prop, viol):
 def replay(path, prop):
     with open(path, encoding="utf-8") as fhnd:
         payload = json.load(fhnd)
-    viol = replay_session(payload)
+    if payload.get("mode") == "shard-prefix":
+        viol = replay_prefix(payload["property"], payload["origin"])
+    else:
+        viol = replay_session(payload)
     ok = same(viol, payload["property"], payload["violation_class"])
     print("replay: %s %s %s" % (
         payload["property"], payload["violation_class"],
@@ -1155,6 +1189,10 @@ def main():
     def reproduces(path):
         with open(path, encoding="utf-8") as fhnd:
             payload = json.load(fhnd)
+        if payload.get("mode") == "shard-prefix":
+            return same(replay_prefix(payload["property"],
+                                      payload["origin"]),
+                        payload["property"], payload["violation_class"])
         return same(replay_session(payload), payload["property"],
                     payload["violation_class"])
 
